@@ -16,7 +16,8 @@ RULE = ("fault enumeration: one fresh interpreter per (termination mode x statem
         "constraint each) and terminates at position k by: falling off the end, sys.exit() / (0) / (None) / (False) / "
         "(1) / (-1) / (3) / (True) / ('msg') / ('') / ('0'), an uncaught ValueError / ZeroDivisionError / custom exception, KeyboardInterrupt, raise "
         "SystemExit / SystemExit(0) / SystemExit(3), builtin exit(0) / exit(3), an exception raised and caught, a "
-        "sys.exit(3) caught by the script which then ends normally. A prologue counts calls of backend.prove in a side "
+        "sys.exit(3) caught by the script which then ends normally, and histories of two exit requests (a caught or "
+        "thread-local sys.exit(0) followed by sys.exit(3) / a message / an exception, try: sys.exit(a) finally: sys.exit(b)). A prologue counts calls of backend.prove in a side "
         "file. Oracle: the exit status is the one plain Python gives for that termination; status 0 and autoprove on => "
         "prove ran exactly once and the artefacts decode (independent decoders) to exactly the constraints of the "
         "statements executed; uncaught exception or status != 0 => prove did not run and no artefact exists; autoprove "
@@ -50,6 +51,14 @@ MODES = {
     "caught":           ("try:\n    raise ValueError('boom')\nexcept ValueError:\n    pass", 0, True),
     "caught-1/0":       ("try:\n    1/0\nexcept ZeroDivisionError:\n    pass", 0, True),
     "caught sys.exit(3)": ("try:\n    sys.exit(3)\nexcept SystemExit:\n    pass", 0, True),
+    # histories of several exit requests: the status of the process is the one of the last request that takes effect
+    "caught sys.exit(0) then sys.exit(3)": ("try:\n    sys.exit(0)\nexcept SystemExit:\n    pass\nsys.exit(3)", 3, False),
+    "caught sys.exit() then sys.exit('msg')": ("try:\n    sys.exit()\nexcept SystemExit:\n    pass\nsys.exit('msg')", 1, False),
+    "caught sys.exit(3) then sys.exit(0)": ("try:\n    sys.exit(3)\nexcept SystemExit:\n    pass\nsys.exit(0)", 0, False),
+    "sys.exit(0) finally sys.exit(4)": ("try:\n    sys.exit(0)\nfinally:\n    sys.exit(4)", 4, False),
+    "sys.exit(4) finally sys.exit(0)": ("try:\n    sys.exit(4)\nfinally:\n    sys.exit(0)", 0, False),
+    "thread sys.exit(0) then sys.exit(3)": ("import threading\n_t = threading.Thread(target=lambda: sys.exit(0))\n_t.start()\n_t.join()\nsys.exit(3)", 3, False),
+    "caught sys.exit(0) then ValueError": ("try:\n    sys.exit(0)\nexcept SystemExit:\n    pass\nraise ValueError('boom')", 1, False),
 }
 BACKENDS = ["snarkjs", "zkinterface", "qaptools"]
 ARTEFACTS = {
